@@ -6,6 +6,7 @@ import (
 	"fmt"
 	"go/ast"
 	"go/types"
+	"golang.org/x/tools/go/packages"
 	"strings"
 )
 
@@ -73,6 +74,83 @@ are how obitag2 is built today (a heuristic in two stages): they are recorded as
 			if !found {
 				s.Pass(nil, key, fd.Pos(), "no table indexed by the bytes of the query")
 			}
+		},
+	})
+}
+
+func init() {
+	register(&Rule{
+		ID: "T2-idx", Props: []string{"C15"}, Min: 1,
+		Doc: `"the index built for a reference maps each recorded distance to the LCA of all references within that distance": obitag reads that index in the attribute obitag_ref_index. In
+pkg/obitools every call of SetOBITagRefIndex stores an index computed by IndexSequence over a set of references that is not a selection made in the same function (a slice filled by append under
+a condition): obireffamidx indexed the cluster heads only and stored the result in obitag_ref_index, so obitag run on its output ignored every reference that is not a head — two genera of a
+family one substitution apart: species instead of family.`,
+		Run: func(c *Ctx, s *Sink) {
+			n := 0
+			c.EachFunc([]string{"pkg/obitools"}, func(p *packages.Package, fd *ast.FuncDecl) {
+				info := p.TypesInfo
+				defs := collectDefs(info, fd)
+				// slices filled by append under a condition
+				selected := map[types.Object]bool{}
+				var stack []ast.Node
+				ast.Inspect(fd.Body, func(nd ast.Node) bool {
+					if nd == nil {
+						stack = stack[:len(stack)-1]
+						return true
+					}
+					stack = append(stack, nd)
+					as, ok := nd.(*ast.AssignStmt)
+					if !ok || len(as.Lhs) != 1 || len(as.Rhs) != 1 {
+						return true
+					}
+					call, ok := ast.Unparen(as.Rhs[0]).(*ast.CallExpr)
+					if !ok {
+						return true
+					}
+					if id, ok := call.Fun.(*ast.Ident); !ok || id.Name != "append" {
+						return true
+					}
+					for k := len(stack) - 2; k >= 0; k-- {
+						if _, isIf := stack[k].(*ast.IfStmt); isIf {
+							if o := rootObj(info, as.Lhs[0]); o != nil {
+								selected[o] = true
+							}
+						}
+					}
+					return true
+				})
+				ast.Inspect(fd.Body, func(nd ast.Node) bool {
+					call, ok := nd.(*ast.CallExpr)
+					if !ok || len(call.Args) != 1 {
+						return true
+					}
+					f := callee(info, call)
+					if f == nil || f.Name() != "SetOBITagRefIndex" {
+						return true
+					}
+					n++
+					key := fmt.Sprintf("%s:SetOBITagRefIndex#%d:index-over-all-references", funcName(p, fd), n)
+					var src *ast.CallExpr
+					if id, ok := ast.Unparen(call.Args[0]).(*ast.Ident); ok {
+						for _, d := range defs[info.ObjectOf(id)] {
+							if cl, ok := ast.Unparen(d).(*ast.CallExpr); ok {
+								if g := callee(info, cl); g != nil && g.Name() == "IndexSequence" {
+									src = cl
+								}
+							}
+						}
+					}
+					switch {
+					case src == nil || len(src.Args) < 2:
+						s.Pass(nil, key, call.Pos(), "the index stored does not come from IndexSequence in this function")
+					case selected[rootObj(info, src.Args[1])]:
+						s.Fail(nil, key, call.Pos(), "the index stored in obitag_ref_index was computed over "+types.ExprString(src.Args[1])+", a selection of the references made in this function: obitag reads it as the index over all the references and ignores the others — obireffamidx | obitag assigns a query to species 30 where obitag alone and obirefidx | obitag say family 10")
+					default:
+						s.Pass(nil, key, call.Pos(), "the index is computed over "+types.ExprString(src.Args[1]))
+					}
+					return true
+				})
+			})
 		},
 	})
 }
